@@ -40,6 +40,11 @@ pub proof fn lemma_split_nonempty(s: Seq<char>)
 { s.split('.').collect::<Vec<_>>() }
 #[verifier::external_body] fn shim_str_is_empty(s: &str) -> (r: bool) ensures r == (s@.len() == 0) { s.is_empty() }
 #[verifier::external_body] fn shim_str_as_bytes<'a>(s: &'a str) -> (r: &'a [u8]) ensures all_ascii(s@) ==> r@ == as_octets(s@) { s.as_bytes() }
+#[verifier::external_body] fn shim_ends_with_dot(s: &str) -> (r: bool) ensures r == (s@.len() > 0 && s@.last() == '.') { s.to_string().ends_with('.') }
+#[verifier::external_body] fn shim_starts_with_dot(s: &str) -> (r: bool) ensures r == (s@.len() > 0 && s@[0] == '.') { s.starts_with('.') }
+// R36: format!("{a}{b}") / format!("{a}.{b}") of two strings: their concatenation (with a dot between)
+#[verifier::external_body] fn shim_concat(a: &str, b: &str) -> (r: String) ensures r@ == a@ + b@ { format!("{a}{b}") }
+#[verifier::external_body] fn shim_concat_dot(a: &str, b: &str) -> (r: String) ensures r@ == a@ + seq!['.'] + b@ { format!("{a}.{b}") }
 pub broadcast proof fn lemma_root_vals(n: DomainName)
     requires n.wf(), n.labels@.len() == 1
     ensures #[trigger] vals(n.labels@) == seq![Seq::<u8>::empty()]
@@ -49,6 +54,18 @@ pub broadcast proof fn lemma_root_vals(n: DomainName)
 }
 pub broadcast axiom fn axiom_label_vec_len(v: Vec<Label>)
     ensures #[trigger] v@.len() <= 0x03ff_ffff_ffff_ffff;
+pub open spec fn lchars(l: Label) -> Seq<char> { Seq::new(l.v().len(), |i: int| l.v()[i] as char) }
+pub open spec fn joined(ls: Seq<Label>) -> Seq<char> decreases ls.len() {
+    if ls.len() == 0 { Seq::<char>::empty() } else if ls.len() == 1 { lchars(ls[0]) } else { joined(ls.drop_last()) + seq!['.'] + lchars(ls.last()) }
+}
+pub open spec fn is_root_labels(ls: Seq<Label>) -> bool { ls.len() == 1 && ls[0].v().len() == 0 }
+pub open spec fn dotted(ls: Seq<Label>) -> Seq<char> { if is_root_labels(ls) { seq!['.'] } else { joined(ls) } }
+pub open spec fn is_root_spec(n: DomainName) -> bool { n.len == 1 && n.labels@[0].v().len() == 0 }
+pub open spec fn dotted_of(n: DomainName) -> Seq<char> { if is_root_spec(n) { seq!['.'] } else { joined(n.labels@) } }
+// the text a relative name stands for: itself if it ends with a dot, else the origin's dotted form appended after a dot
+pub open spec fn rel_text(origin: DomainName, s: Seq<char>) -> Seq<char> {
+    if s.last() == '.' { s } else if dotted_of(origin).len() > 0 && dotted_of(origin)[0] == '.' { s + dotted_of(origin) } else { s + seq!['.'] + dotted_of(origin) }
+}
 // ---- what dotted text denotes: `.` is the root; otherwise the pieces between the dots, lower-cased, are the labels - none but the
 // last may be empty, the last must be (the text ends with a dot), none longer than 63 octets, 255 octets in all
 pub open spec fn piece_label(c: Seq<char>) -> Seq<u8> { lower_seq(as_octets(c)) }
@@ -69,12 +86,6 @@ pub open spec fn text_name(s: Seq<char>) -> Option<Seq<Seq<u8>>> {
 
 LEMMAS = """
 // ---- the text clause of C16: a name made of ASCII labels without dots, written as dotted text, reads back as the same labels
-pub open spec fn lchars(l: Label) -> Seq<char> { Seq::new(l.v().len(), |i: int| l.v()[i] as char) }
-pub open spec fn joined(ls: Seq<Label>) -> Seq<char> decreases ls.len() {
-    if ls.len() == 0 { Seq::<char>::empty() } else if ls.len() == 1 { lchars(ls[0]) } else { joined(ls.drop_last()) + seq!['.'] + lchars(ls.last()) }
-}
-pub open spec fn is_root_labels(ls: Seq<Label>) -> bool { ls.len() == 1 && ls[0].v().len() == 0 }
-pub open spec fn dotted(ls: Seq<Label>) -> Seq<char> { if is_root_labels(ls) { seq!['.'] } else { joined(ls) } }
 pub open spec fn nodot(x: Seq<char>) -> bool { forall|i: int| 0 <= i < x.len() ==> #[trigger] x[i] != '.' }
 pub open spec fn plain_label(l: Label) -> bool { forall|i: int| 0 <= i < l.v().len() ==> (#[trigger] l.v()[i]) <= 127 && l.v()[i] != 46 }
 pub open spec fn plain_name(n: DomainName) -> bool { n.wf() && forall|i: int| 0 <= i < n.labels@.len() ==> plain_label(#[trigger] n.labels@[i]) }
@@ -183,9 +194,78 @@ pub proof fn lemma_dotted_text_reads_back(n: DomainName)
         }
     }
 }
+proof fn lemma_joined_concat(a: Seq<Label>, b: Seq<Label>)
+    requires a.len() >= 1, b.len() >= 1
+    ensures joined(a + b) == joined(a) + seq!['.'] + joined(b)
+    decreases b.len()
+{
+    let ab = a + b;
+    assert(ab.drop_last() =~= a + b.drop_last());
+    assert(ab.last() == b.last());
+    if b.len() == 1 {
+        assert(a + b.drop_last() =~= a);
+        assert(joined(b) == lchars(b[0]));
+    } else {
+        lemma_joined_concat(a, b.drop_last());
+        assert(joined(a) + seq!['.'] + joined(b.drop_last()) + seq!['.'] + lchars(b.last()) =~= joined(a) + seq!['.'] + (joined(b.drop_last()) + seq!['.'] + lchars(b.last())));
+    }
+}
+proof fn lemma_joined_first_last(ls: Seq<Label>)
+    requires ls.len() >= 1, forall|i: int| 0 <= i < ls.len() ==> plain_label(#[trigger] ls[i]), ls[0].v().len() > 0
+    ensures joined(ls).len() > 0, joined(ls)[0] != '.', ls.last().v().len() > 0 ==> joined(ls).last() != '.'
+    decreases ls.len()
+{
+    assert(plain_label(ls[0]) && plain_label(ls.last()));
+    if ls.len() == 1 {
+        assert(lchars(ls[0])[0] == ls[0].v()[0] as char && ls[0].v()[0] != 46);
+        if ls.last().v().len() > 0 { let m = ls[0].v().len() - 1; assert(lchars(ls[0]).last() == ls[0].v()[m] as char && ls[0].v()[m] != 46); }
+    } else {
+        assert forall|i: int| 0 <= i < ls.drop_last().len() implies plain_label(#[trigger] ls.drop_last()[i]) by { assert(ls.drop_last()[i] == ls[i]); }
+        lemma_joined_first_last(ls.drop_last());
+        let j = joined(ls.drop_last()) + seq!['.'] + lchars(ls.last());
+        assert(j[0] == joined(ls.drop_last())[0]);
+        if ls.last().v().len() > 0 { let m = ls.last().v().len() - 1; assert(j.last() == lchars(ls.last())[m]); assert(ls.last().v()[m] != 46); }
+    }
+}
+// C16: a name written relative to an origin - the labels in front of the origin's, joined by dots - reads back, joined to that origin, as the same labels
+pub proof fn lemma_relative_text_reads_back(apex: DomainName, n: DomainName, k: int)
+    requires plain_name(n), plain_name(apex), 0 < k, k + apex.labels@.len() == n.labels@.len(), n.labels@.skip(k) == apex.labels@
+    ensures ({ let t = rel_text(apex, joined(n.labels@.take(k))); all_ascii(t) && text_name(t) == Some(vals(n.labels@)) }), // [C16:a_name_written_relative_to_an_origin_reads_back_as_the_same_labels]
+{
+    let front = n.labels@.take(k); let back = apex.labels@;
+    assert(n.labels@ =~= front + back);
+    assert forall|i: int| 0 <= i < front.len() implies plain_label(#[trigger] front[i]) by { assert(front[i] == n.labels@[i]); }
+    assert(front[0] == n.labels@[0] && front.last() == n.labels@[k - 1]);
+    lemma_joined_first_last(front);
+    lemma_joined_concat(front, back);
+    lemma_dotted_text_reads_back(n);
+    lemma_labels_sum_lower(back);
+    if back.len() == 1 {
+        lemma_labels_sum_one(back);
+        assert(back[0].v().len() == 0);
+        assert(lchars(back[0]) =~= Seq::<char>::empty());
+        assert(joined(front) + seq!['.'] + joined(back) =~= joined(front) + seq!['.']);
+        assert(dotted_of(apex) == seq!['.']);
+    } else {
+        assert(!is_root_spec(apex));
+        assert(back[0].v().len() > 0);
+        lemma_joined_first_last(back);
+    }
+}
 """
 
 SPECS = {
+    "DomainName::from_relative_dotted_string": {"props": ["C16"],
+        "rewrites": [("R33", r"s\.is_empty\(\)", "shim_str_is_empty(s)"),
+                     ("R33", r"s\.to_string\(\)\.ends_with\('\.'\)", "shim_ends_with_dot(s)"),
+                     ("R33", r"suffix\.starts_with\('\.'\)", "shim_starts_with_dot(suffix.as_str())"),
+                     ("R36", r"&format!\(\"\{s\}\{suffix\}\"\)", "shim_concat(s, suffix.as_str()).as_str()"),
+                     ("R36", r"&format!\(\"\{s\}\.\{suffix\}\"\)", "shim_concat_dot(s, suffix.as_str()).as_str()")],
+        "contract": """    requires origin.wf(),
+    ensures
+        r is Some ==> r->Some_0.wf(), // [C16:name_joined_to_an_origin_is_well_formed_or_rejected]
+        s@.len() == 0 ==> r == Some(*origin),
+        s@.len() > 0 && all_ascii(rel_text(*origin, s@)) ==> (match text_name(rel_text(*origin, s@)) { Some(vs) => r is Some && vals(r->Some_0.labels@) == vs, None => r is None }), // [C16:a_relative_name_is_the_text_with_the_origin_appended]"""},
     "DomainName::from_dotted_string": {"props": ["C16"],
         "rewrites": [("R33", r's == "\."', 'shim_str_eq(s, ".")'),
                      ("R33", r"s\.split\('\.'\)\.collect::<Vec<_>>\(\)", "shim_split_dots(s)"),
@@ -235,6 +315,7 @@ def build(G):
     specs.update(as_assumed(NAME_SPECS, ["Label::try_from", "DomainName::root_domain", "DomainName::from_labels"]))
     specs["DomainName::from_labels"] = dict(specs["DomainName::from_labels"])
     G.impl(T, "TryFrom<&[u8]> for Label", ["try_from"], "Label::", specs)
-    G.impl(T, "DomainName", ["root_domain", "from_labels", "from_dotted_string"], "DomainName::", specs)
+    specs["DomainName::to_dotted_string"] = {"props": [], "mode": "assume", "contract": "    requires self.labels@.len() >= 1,\n    ensures r@ == dotted_of(*self), // zone_names: DomainName::to_dotted_string"}
+    G.impl(T, "DomainName", ["root_domain", "from_labels", "to_dotted_string", "from_dotted_string", "from_relative_dotted_string"], "DomainName::", specs)
     G.raw(LEMMAS, ("spec", "names_text lemmas"))
     end(G)
